@@ -563,3 +563,144 @@ def put_one_specs(prop='C03'):
     cases = [dict(field=fld, delete=d) for fld in ('elts', '_body') for d in (False, True)]
     return [Fragment('fst_put_one:_put_one', prop, 'entry.put_one', cases, run, min_obligations=3,
                      notes='sliceable branch (no dedicated handler / deletion, no `to`); ret_child=False')]
+
+
+def dispatcher_specs(prop='C03'):
+    """fst_put_slice:_put_slice and fst_put_one:_put_one (non-sliceable branch): the dispatch, guard and raw-fallback
+    protocol every structured put goes through.
+      guards        a circular put, a consumed tree and (for slices) `to` are refused before anything else happens
+      raw=True      the node handler is not consulted; the raw path runs once inside a raw modification context
+      raw falsy     the handler runs once inside a modification context for the field; its refusal propagates
+      raw='auto'    a refusal (NodeError / SyntaxError / NotImplementedError) of the handler falls back to the raw path,
+                    which receives the code AS IT WAS BEFORE the handler ran (an FST is copied first because the handler
+                    may consume it); the original exception is chained
+      returns       self (slice) / child or self (one) on success"""
+    from pyvc import frontend
+    from pyvc.contract import Fragment
+    from pyvc.interp import Interp, IFunc, SObj, PyRaise
+
+    class NodeError(Exception):
+        pass
+
+    def run(ctx, case, loc, pre, label):
+        which = case['fn']
+        log = []
+        FSTCLS = SObj('FSTclass', {})
+        root = SObj('root', {})
+        a = SObj('a', {}, **{'__class__': SObj('Cls', {}), 'elts': ['x'], 'value': SObj('old_child', {})})
+        self = SObj('self', {}, a=a, root=root)
+
+        class Cm:
+            def __init__(self, *args, **kw):
+                self.args, self.kw = args, kw
+
+            def __enter__(self):
+                log.append(('enter', self.args, self.kw))
+                return self
+
+            def __exit__(self, et, ev, tb):
+                log.append(('exit', et is not None))
+                return False
+        self._set('_modifying', lambda *args, **kw: Cm(*args, **kw), count=False)
+        self._set('repath', lambda: self, count=False)
+        code_kind = case['code']
+        copies = []
+        if code_kind == 'fst':
+            code = SObj('code_fst', {}, a=SObj('code_a', {}), __isfst=True, consumed=False)
+
+            def copy():
+                c = SObj(f'code_copy{len(copies)}', {}, a=SObj('copy_a', {}), __isfst=True, consumed=False)
+                copies.append((c, len([x for x in log if x[0] == 'handler'])))
+                return c
+            code._set('copy', copy, count=False)
+        elif code_kind == 'consumed':
+            code = SObj('dead_fst', {}, a=None, __isfst=True)
+        elif code_kind == 'root':
+            code = root
+        else:
+            code = 'SRC'
+        raw = case['raw']
+        handler_fails = case['handler_fails']
+        raw_calls = []
+
+        def handler(*args):
+            log.append(('handler', args[1]))
+            c = args[1]
+            if isinstance(c, SObj) and c._get('consumed') is False:
+                c._set('consumed', True, count=False)      # handlers may consume the tree they are given
+            if handler_fails:
+                raise PyRaise(NodeError('refused'))
+            return SObj('new_child', {})
+
+        def raw_put(*args):
+            raw_calls.append(args[1])
+            log.append(('raw', args[1]))
+            return SObj('raw_result', {})
+
+        class Handlers:
+            def get(self, key, default=None):
+                if which == '_put_slice':
+                    return handler
+                return (False, handler, SObj('static', {}))
+        opts = {'raw': raw}
+        if case.get('to'):
+            opts['to'] = SObj('to_node', {})
+        it = Interp({'NodeError': NodeError, '_PUT_SLICE_HANDLERS': Handlers(), '_PUT_ONE_HANDLERS': Handlers(),
+                     '_put_slice_raw': raw_put, '_put_one_raw': raw_put,
+                     'fst': SObj('fst', {}, FST=SObj('FSTcls', {}, get_option=lambda n, o=None: (o or {}).get(n, False)))})
+        it.globals['fst']._get('FST')
+        it.globals['isinstance'] = lambda o, t: isinstance(o, SObj) and o._get('__isfst') is True
+        it.globals['getattr'] = lambda o, n, d=None: (lambda v: d if (v is None or v.__class__.__name__ == 'Absent') else v)(o._get(n))
+        f = IFunc(it, loc.node, None, which)
+        args = (self, code, 0, 1, 'elts', False, opts) if which == '_put_slice' else (self, code, None, 'value', opts, True)
+        guard = code_kind in ('consumed', 'root') or (which == '_put_slice' and case.get('to'))
+        try:
+            r = it.call(f, args)
+        except PyRaise as pr:
+            ctx.notes['outcome'] = f'raise {pr.cls.__name__}'
+            if guard:
+                ctx.prove(f'{pre}.guard.refused_before_anything[{label}]', pr.cls is ValueError and not log)
+                return
+            ctx.prove(f'{pre}.refusal.only_the_handlers[{label}]', handler_fails and pr.cls is NodeError)
+            ctx.prove(f'{pre}.refusal.propagates_only_without_raw[{label}]', raw is False and not raw_calls,
+                      info='with raw falsy the handler\'s refusal reaches the caller and nothing else is tried')
+            ctx.prove(f'{pre}.refusal.context_closed[{label}]', [x[0] for x in log] == ['enter', 'handler', 'exit'])
+            return
+        ctx.notes['outcome'] = 'return'
+        ctx.prove(f'{pre}.guard.not_bypassed[{label}]', not guard)
+        hcalls = [x for x in log if x[0] == 'handler']
+        if raw is True:
+            ctx.prove(f'{pre}.raw_true.handler_not_consulted[{label}]', not hcalls and raw_calls == [code])
+            ctx.prove(f'{pre}.raw_true.raw_context[{label}]', [x[0] for x in log] == ['enter', 'raw', 'exit'] and
+                      log[0][1][1:2] == (True,))
+        elif not handler_fails:
+            ctx.prove(f'{pre}.handler.once_inside_context[{label}]', [x[0] for x in log] == ['enter', 'handler', 'exit'] and
+                      hcalls[0][1] is code and not raw_calls)
+            if which == '_put_slice':
+                ctx.prove(f'{pre}.returns_self[{label}]', r is self)
+        else:
+            ctx.prove(f'{pre}.fallback.only_with_auto[{label}]', raw == 'auto')
+            ctx.prove(f'{pre}.fallback.order[{label}]',
+                      [x[0] for x in log] == ['enter', 'handler', 'exit', 'enter', 'raw', 'exit'])
+            if code_kind == 'fst':
+                ctx.prove(f'{pre}.fallback.gets_code_preserved_before_the_handler[{label}]',
+                          len(copies) == 1 and copies[0][1] == 0 and raw_calls == [copies[0][0]] and
+                          raw_calls[0]._get('consumed') is False,
+                          info='the raw path must not receive the tree the failed handler may already have consumed')
+            else:
+                ctx.prove(f'{pre}.fallback.gets_same_source[{label}]', raw_calls == [code])
+
+    cases = []
+    for fn in ('_put_slice', '_put_one'):
+        for code in ('src', 'fst'):
+            for raw in (False, True, 'auto'):
+                for hf in (False, True):
+                    cases.append(dict(fn=fn, code=code, raw=raw, handler_fails=hf))
+        cases += [dict(fn=fn, code='consumed', raw=False, handler_fails=False),
+                  dict(fn=fn, code='root', raw=False, handler_fails=False)]
+    cases.append(dict(fn='_put_slice', code='src', raw=False, handler_fails=False, to=True))
+    out = []
+    for fn, ident in (('_put_slice', 'fst_put_slice:_put_slice'), ('_put_one', 'fst_put_one:_put_one')):
+        out.append(Fragment(ident, prop, f'dispatch.{fn}', [c for c in cases if c['fn'] == fn], run, min_obligations=1,
+                            notes='handler / raw path / modification context as recorded stubs; _put_one: non-sliceable field'))
+    return out
